@@ -103,6 +103,14 @@ fn enc_with<F: Fn(&mut Encoder<VecOutputTarget>) -> slice_codec::Result<()>, G: 
                 let mut e = Encoder::from(&mut small[..]);
                 if g(&mut e).is_ok() { return "sliceoverrun".into(); }
             }
+            if ATOMIC.with(|a| a.get()) {
+                // every fixed slice that is too small: the refused number leaves position and contents as they were
+                for cap in 0..v.len() {
+                    let mut small = vec![0xA5u8; cap];
+                    let left = { let mut e = Encoder::from(&mut small[..]); if g(&mut e).is_ok() { return "sliceoverrun".into(); } e.remaining() };
+                    if left != cap || small.iter().any(|b| *b != 0xA5) { return format!("partialwrite cap={} left={} {}", cap, left, hex(&small)); }
+                }
+            }
             format!("ok {}", hex(&v))
         }
         Err(_) => "refused".into(),
@@ -150,7 +158,10 @@ pub fn handle(toks: &[&str]) -> String {
     }
     handle_inner(toks)
 }
+thread_local! { static ATOMIC: std::cell::Cell<bool> = std::cell::Cell::new(false); }
 fn handle_inner(toks: &[&str]) -> String {
+    // a number is one operation on the buffer: when it does not fit, nothing of it may have been written
+    ATOMIC.with(|a| a.set(toks.len() > 1 && toks[0] == "enc" && matches!(toks[1], "bool" | "u8" | "i8" | "u16" | "i16" | "u32" | "i32" | "u64" | "i64" | "f32" | "f64" | "varuint" | "varint" | "size")));
     match toks {
         ["menu"] => TYPE_MENU.join(" "),
         ["enc", "varuint", "n", v] => { let x: u64 = v.parse().unwrap(); enc_with(|e| e.encode_varuint(x), |e| e.encode_varuint(x)) }
@@ -167,6 +178,16 @@ fn handle_inner(toks: &[&str]) -> String {
                 "size" => match d.decode_size() { Ok(x) => format!("ok n {} | {}", x, d.remaining()), Err(e) => render_err(&e) },
                 "varint" => match d.decode_varint::<i64>() { Ok(x) => format!("ok z {} | {}", x, d.remaining()), Err(e) => render_err(&e) },
                 "varint32" => match d.decode_varint::<i32>() { Ok(x) => format!("ok z {} | {}", x, d.remaining()), Err(e) => render_err(&e) },
+                // the generic decoders at other integer types (what a caller of the library may ask for)
+                "varint@u64" => match d.decode_varint::<u64>() { Ok(x) => format!("ok z {} | {}", x, d.remaining()), Err(e) => render_err(&e) },
+                "varint@usize" => match d.decode_varint::<usize>() { Ok(x) => format!("ok z {} | {}", x, d.remaining()), Err(e) => render_err(&e) },
+                "varint@u8" => match d.decode_varint::<u8>() { Ok(x) => format!("ok z {} | {}", x, d.remaining()), Err(e) => render_err(&e) },
+                "varint@i8" => match d.decode_varint::<i8>() { Ok(x) => format!("ok z {} | {}", x, d.remaining()), Err(e) => render_err(&e) },
+                "varint@u16" => match d.decode_varint::<u16>() { Ok(x) => format!("ok z {} | {}", x, d.remaining()), Err(e) => render_err(&e) },
+                "varint@i16" => match d.decode_varint::<i16>() { Ok(x) => format!("ok z {} | {}", x, d.remaining()), Err(e) => render_err(&e) },
+                "varuint@i8" => match d.decode_varuint::<i8>() { Ok(x) => format!("ok n {} | {}", x, d.remaining()), Err(e) => render_err(&e) },
+                "varuint@u16" => match d.decode_varuint::<u16>() { Ok(x) => format!("ok n {} | {}", x, d.remaining()), Err(e) => render_err(&e) },
+                "varuint@i64" => match d.decode_varuint::<i64>() { Ok(x) => format!("ok n {} | {}", x, d.remaining()), Err(e) => render_err(&e) },
                 "varuint32" => match d.decode_varuint::<u32>() { Ok(x) => format!("ok n {} | {}", x, d.remaining()), Err(e) => render_err(&e) },
                 "f32" => match d.decode::<f32>() { Ok(x) => format!("ok n {} | {}", x.to_bits(), d.remaining()), Err(e) => render_err(&e) },
                 "f64" => match d.decode::<f64>() { Ok(x) => format!("ok n {} | {}", x.to_bits(), d.remaining()), Err(e) => render_err(&e) },
